@@ -1104,7 +1104,11 @@ class AnsiString:
                     # Because the settings work based on references instead of values, the settings not only
                     # need to be removed here but changed where they are removed in the added string.
                     find_settings = settings.add
-                    replace_settings = self._fmts[key].rem[:len(settings.add)]
+                    # Pair each incoming setting with mine of the same precedence (equal settings may repeat)
+                    replace_settings = [
+                        s for s in settings_at_end
+                        if __class__._find_setting_reference(s, self._fmts[key].rem[:len(settings.add)]) >= 0
+                    ]
                     self._fmts[key].rem = self._fmts[key].rem[len(settings.add):]
                     settings.add = []
                     if not self._fmts[key] and not settings:
